@@ -344,6 +344,15 @@ def view_walk(c, p, is_mapping, rng, rec, fail, present):
     if sp and r < 0.5:
         a, b = rng.choice(sp), rng.choice(sp)
         args = (a, b) if r < 0.25 else (a,)
+    elif r < 0.85:
+        # every spelling of the four arguments: open ends (omitted / None)
+        # with exclusive flags, bounds at the extremes of the contents
+        a = rng.choice([None, None] + (sp[:1] + sp[-1:] + [rng.choice(sp)]
+                                       if sp else []))
+        b = rng.choice([None, None] + (sp[:1] + sp[-1:] + [rng.choice(sp)]
+                                       if sp else []))
+        args = (a, b, rng.random() < .6, rng.random() < .6)
+        rec.ev('view-walks:flags')
     try:
         vc = getattr(c, meth)(*args)
         vp = getattr(p, meth)(*args)
@@ -366,11 +375,16 @@ def view_walk(c, p, is_mapping, rng, rec, fail, present):
 
             def f(v, i=i, j=j):
                 return list(v[i:j])
-        else:
+        elif kind < 0.95:
             what = 'len(%s(*%r))' % (meth, args)
 
             def f(v):
                 return len(v)
+        else:
+            what = 'bool/list(%s(*%r))' % (meth, args)
+
+            def f(v):
+                return (bool(v), [x for x in v])
         outs = []
         for v in (vc, vp):
             try:
